@@ -567,6 +567,8 @@ def plan(tier, seed):
   for b in sig_batches:
     for v in (['fresh', 'positive-low', 'negative-high', 'weak-no-entry', 'other-version']
               if thorough else ['fresh', 'positive-low', 'negative-high']):
+      if not thorough and v != 'fresh' and b[0] == 'sameissuer':
+        continue  # the second 5-signature batch: other start states only in the thorough tier
       T.append(Task('ecdsa-bookkeeping', 'search', {'family': 'ecdsa', 'names': b, 'variant': v,
                                                     'max_states': 200},
                     bound='7 signatures (healthy, 3 biased of one issuer, healthy of the same '
